@@ -821,7 +821,17 @@ def cond_templates(ghm):
 
 
 def pvals(dist):
-    return [float(v) for v in dist.parameters.values()]
+    return list(dist.parameters.values())
+
+
+def pbits(v):
+    """a parameter value as a protocol integer: the double's bit pattern, or a hash for anything else"""
+    if isinstance(v, (float, int, np.floating, np.integer)) and not isinstance(v, bool):
+        return f2b(float(v))
+    a = atom_token(v)
+    if a is None and isinstance(v, np.ndarray):
+        a = b"nd" + str(v.shape).encode() + np.ascontiguousarray(v).tobytes()
+    return _h63(a if a is not None else repr(v).encode())
 
 
 def cond_fit_check(records, case, step, lm, before, fit_desc_used):
@@ -852,10 +862,13 @@ def cond_fit_check(records, case, step, lm, before, fit_desc_used):
         try:
             with warnings.catch_warnings():
                 warnings.simplefilter("ignore")
-                for x in data_int:
-                    d = copy.deepcopy(t_copy)
-                    d.fit(x, method, weights)
-                    ps.append(pvals(d))
+                def refit():
+                    for x in data_int:
+                        d = copy.deepcopy(t_copy)
+                        d.fit(x, method, weights)
+                        ps.append(pvals(d))
+
+                timed_call(refit, OP_BUDGET)
         except Exception as e:  # noqa: BLE001
             rec["skip"] = "independent refit raised " + type(e).__name__
             records.append(rec)
@@ -866,12 +879,12 @@ def cond_fit_check(records, case, step, lm, before, fit_desc_used):
             if id(d) not in seen:
                 seen[id(d)] = "d%d" % len(seen)
             pattern.append(seen[id(d)])
-        rec["impl"] = {"template": [f2b(v) for v in pvals(cd.distribution)],
-                       "dists": [[f2b(v) for v in pvals(d)] for d in dpi], "pattern": pattern}
-        t0 = [f2b(v) for v in pvals(t_copy)]
+        rec["impl"] = {"template": [pbits(v) for v in pvals(cd.distribution)],
+                       "dists": [[pbits(v) for v in pvals(d)] for d in dpi], "pattern": pattern}
+        t0 = [pbits(v) for v in pvals(t_copy)]
         line = ["RUN", "condfit", "1", "1", "1", str(len(t0))] + ["i%d" % b for b in t0] + ["0", str(len(ps))]
         for p in ps:
-            line += [str(len(p))] + ["i%d" % f2b(v) for v in p]
+            line += [str(len(p))] + ["i%d" % pbits(v) for v in p]
         rec["line"] = " ".join(line)
         rec["n_int"] = len(ps)
         if pattern != ["d%d" % (j + 1) for j in range(len(dpi))]:
@@ -885,6 +898,9 @@ def cond_fit_check(records, case, step, lm, before, fit_desc_used):
 
 class _Timeout(Exception):
     pass
+
+
+OP_BUDGET = 20.0   # seconds per call; an evaluation that is interrupted must be pure as well
 
 
 def _alarm(signum, frame):
@@ -944,14 +960,14 @@ def run_sequence(case):
             det_bad = None
             t_op = time.time()
             try:
-                result = timed_call(ex["call"], 4.0) if op["op"] == "cdf" else ex["call"]()
+                result = timed_call(ex["call"], 4.0 if op["op"] == "cdf" else OP_BUDGET)
             except Exception as e:  # noqa: BLE001
                 exc = type(e).__name__ + ": " + str(e)[:120]
             repeated = False
             if exc is None and ex["det"] and not (op["op"] == "cdf" and time.time() - t_op > 1.5):
                 repeated = True
                 try:
-                    again = ex["call"]()
+                    again = timed_call(ex["call"], OP_BUDGET)
                     r1 = result.coordinates if ex.get("post") == "contour" else result
                     r2 = again.coordinates if ex.get("post") == "contour" else again
                     if not same_result(r1, r2):
@@ -1142,6 +1158,8 @@ def corpus_cases():
     out.append({"models": [g(2), g(0)], "ops": [
         {"op": "marginal", "m": 0, "which": "pdf", "dim": 0, "variant": "neg", "rows": 25},
         {"op": "marginal", "m": 0, "which": "pdf", "dim": 0, "variant": "int", "rows": 25},
+        {"op": "cdf", "m": 0, "variant": "float", "rows": 1},
+        {"op": "cdf", "m": 0, "variant": "int", "rows": 1},
         {"op": "contour", "m": 0, "kind": "HighestDensityContour", "alpha": 0.1, "n_points": 12, "deg_step": 10, "variant": "float", "rows": 200, "lo": 0.05},
         {"op": "design", "c": 0, "steps": "array", "swap": False},
         {"op": "save", "c": 0, "sem": True},
@@ -1241,6 +1259,8 @@ def slim(case, step=None):
     c = {k: v for k, v in case.items() if not k.startswith("_")}
     if step is not None:
         c["failing_step"] = step
+        if "ops" in c:
+            c["ops"] = c["ops"][: step + 1]   # later ops cannot matter
     return c
 
 
@@ -1418,6 +1438,48 @@ def process(ck, all_records):
             raise core.MachineryError(r["detail"])
 
 
+def shrink_failures(ck):
+    """replace the witness of every failing signature by the shortest sub-sequence that still fails:
+    the failing op alone, preceded only by the op that creates the contour / fitted state it needs"""
+    done = set()
+    for n, (sg, case, detail) in enumerate(list(ck.failures)):
+        key = json.dumps(sg, sort_keys=True)
+        if key in done or "ops" not in case or "failing_step" not in case:
+            continue
+        done.add(key)
+        ops, k = case["ops"], case["failing_step"]
+        need = {k}
+        op = ops[k]
+        if op["op"] in ("design", "save") or (op["op"] == "plot" and op["fn"] == "plot_2D_contour"):
+            prev = [j for j in range(k) if ops[j]["op"] == "contour"]
+            need.update(prev[-3:])
+        if op["op"] == "plot" and op["fn"] == "plot_histograms_of_interval_distributions":
+            prev = [j for j in range(k) if ops[j]["op"] == "fit" and ops[j]["m"] == op["m"]]
+            need.update(prev[-1:])
+        if any(o["op"] == "getter" for o in ops[:k]):
+            need.update(j for j in range(k) if ops[j]["op"] == "getter")
+        idx = sorted(need)
+        if len(idx) == k + 1:
+            continue
+        small = {kk: v for kk, v in case.items() if kk not in ("failing_step",)}
+        small["ops"] = [ops[j] for j in idx]
+        small["gen"] = "shrunk"
+        try:
+            recs = run_sequence(small)
+            ck2 = core.Check(ck.prop, "quick", ck.seed)
+            ck2.driver, ck2.known = ck.driver, []
+            process(ck2, recs)
+        except Exception:  # noqa: BLE001
+            continue
+        for sg2, case2, detail2 in ck2.failures:
+            if sg2 == sg:
+                for i, f in enumerate(ck.failures):
+                    if f[0] == sg:
+                        ck.failures[i] = (sg, case2, detail2)
+                        break
+                break
+
+
 def _worker(case):
     try:
         recs = run_sequence(case)
@@ -1482,7 +1544,20 @@ def main(ck):
                 chunk = []
         process(ck, chunk)
     judge_getters(ck, grecs, ck.driver.run([r["line"] for r in grecs]))
+    if ck.failures:
+        shrink_failures(ck)
     ck.extra["exhaustive"] = False
+    d = ck.dist
+    ck.extra["hypotheses_measured"] = {
+        "steps_with_valid_reach_certificates_and_wellformed_store": ck.hyp_checked,
+        "steps_inside_declared_footprint": d.get("admissible", 0),
+        "fit_separation_pairs_checked(sharedMut=[])": d.get("sep_checked", 0),
+        "pairs_sharing_only_immutable_objects": d.get("shared_immutable_objects", 0),
+        "fits_capturing_a_foreign_object(NoCapture false)": d.get("fit_captures_foreign_object", 0),
+        "fits_capturing_a_caller_array": d.get("model_captured_caller_array", 0),
+        "fit_descriptions_filled_in_place(by design of the code, inside the footprint of fit)": d.get("fit_descriptions_filled_in_place", 0),
+        "other_caller_dicts/lists_changed(not arrays; reported only)": {k: v for k, v in d.items() if k.startswith("aux_changed=")},
+    }
 
 
 def replay(ck, payload):
